@@ -1,14 +1,16 @@
 /*@unit {
  'kind': 'proof', 'mode': 'plain',
  'functions': [],
- 'params': {'PART': [0, 1, 2]},
+ 'params': {'PART': [0, 1, 2, 3, 4]},
  'clauses': 'about the REFERENCE only (spec/c18_base64_ref.h): PART=0 the textbook loop coder/decoder and the positional macros reproduce the test vectors of RFC 4648 '
             'section 10 ("", f, fo, foo, foob, fooba, foobar) and the +/ vs -_ vector FB FF; PART=1 positional encoder == loop encoder and positional decoder == '
             'loop decoder on every byte string / text of length 0..7 (both alphabets); PART=2 for EVERY length n and content: every character before '
             'SPEC_B64_NCHARS(n) is an alphabet character, the next one (if any) is the pad, SPEC_B64_DEC_LEN(SPEC_B64_NCHARS(n)) == n, and the positional decoder applied to the '
-            'positional encoding returns byte j (reference round trip, the lemma that turns "encoder == reference" and "decoder == reference" into decode(encode(x)) == x)',
- 'unwind': 10,
- 'complete_unwinding': 'PART 0/1 are bounded by construction (strings of at most 7 bytes / 8 characters, all loops are reference loops); PART 2 is loop-free',
+            'positional encoding returns byte j (reference round trip, the lemma that turns "encoder == reference" and "decoder == reference" into decode(encode(x)) == x); '
+            'PART=3 / PART=4 the 24-bit-group notation SPEC_B64Q_* (sizes and positions as quotient and remainder, used by the loop invariants) equals the bit-position '
+            'notation SPEC_B64_* for EVERY size and position: encoder (3) and decoder (4)',
+ 'unwind': 10, 'solver': 'cadical',
+ 'complete_unwinding': 'PART 0/1 are bounded by construction (strings of at most 7 bytes / 8 characters, all loops are reference loops); PART 2, 3, 4 are loop-free',
  'witness': {'unwind': 10},
 } @*/
 #include "vc.h"
@@ -72,7 +74,7 @@ void harness(void)
     __CPROVER_assert(dl == SPEC_B64_DEC_LEN(m), "positional decoded length == loop decoder length");
     if (k < dl)
         __CPROVER_assert(dec[k] == SPEC_B64_DEC_BYTE(url, t, k), "positional decoder == loop decoder");
-#else
+#elif PART == 2
     WIT(size_t, n);
     WIT(size_t, j);
     WIT(size_t, k);
@@ -95,6 +97,38 @@ void harness(void)
         char c0 = SPEC_B64_ENC_CHAR(url, x, n, i), c1 = SPEC_B64_ENC_CHAR(url, x, n, i + 1);
         __CPROVER_assert(SPEC_B64_DEC_BYTE_OF(url, c0, c1, j) == x[j], "reference round trip: positional decoder inverts positional encoder");
     }
+#elif PART == 3
+    WIT(size_t, q);
+    WIT(size_t, r);
+    WIT(size_t, k);
+    WIT(_Bool, url);
+    WIT_ARR(uint8_t, content, 6);
+    __CPROVER_assume(q <= VC_MAXOBJ / 3 && r < 3);
+    size_t n = 3 * q + r;
+    uint8_t *x = NEW_OBJ(n);
+    FILL(x, n, content);
+    __CPROVER_assert(SPEC_B64Q_ENC_LEN(q, r) == SPEC_B64_ENC_LEN(n), "group notation: text length");
+    __CPROVER_assert(SPEC_B64Q_NDATA(q, r) == SPEC_B64_NCHARS(n), "group notation: number of data characters");
+    if (k < SPEC_B64Q_ENC_LEN(q, r)) {
+        __CPROVER_assert(SPEC_B64Q_IS_DATA_POS(q, r, k) == SPEC_B64_IS_DATA_POS(n, k), "group notation: data positions");
+        __CPROVER_assert(SPEC_B64Q_ENC_CHAR(url, x, q, r, k) == SPEC_B64_ENC_CHAR(url, x, n, k), "group notation: character k");
+    }
+#else
+    WIT(size_t, mq);
+    WIT(size_t, mr);
+    WIT(size_t, g);
+    WIT(size_t, c);
+    WIT(_Bool, url);
+    WIT_ARR(char, content, 6);
+    __CPROVER_assume(mq <= VC_MAXOBJ / 4 && mr < 4 && g <= VC_MAXOBJ / 3 && c < 3);
+    size_t m = 4 * mq + mr;
+    char *t = NEW_OBJ(m);
+    FILL(t, m, content);
+    size_t k = 3 * g + c;
+    __CPROVER_assert(SPEC_B64Q_DEC_LEN(mq, mr) == SPEC_B64_DEC_LEN(m), "group notation: decoded length");
+    __CPROVER_assert(SPEC_B64Q_IS_DEC_BYTE(mq, mr, g, c) == (k < SPEC_B64_DEC_LEN(m)), "group notation: byte positions");
+    if (SPEC_B64Q_IS_DEC_BYTE(mq, mr, g, c))
+        __CPROVER_assert(SPEC_B64Q_DEC_BYTE(url, t, mq, mr, g, c) == SPEC_B64_DEC_BYTE(url, t, k), "group notation: byte 3g+c");
 #endif
     CANARY("base64 reference selfcheck end reachable");
 }
